@@ -43,6 +43,7 @@ type Contract struct {
 	Ensures  []*Clause
 	Assigns  []*Expr
 	Allocates []*Expr
+	EveryLoopIterates bool // `every loop iterates`: each for/range statement of the source has a back edge (can reach a second iteration)
 	Ignores  map[string]bool // "<callee>#<label>": postconditions of callees NOT assumed inside this function (keeps quantified facts that only cause matching loops out of its queries)
 	Trusts   []*Clause // postconditions callers may assume although the function's own proof does NOT establish them (listed as assumptions)
 	AssignsAll bool
@@ -121,7 +122,7 @@ func newDB() *ContractDB {
 
 var subKeywords = map[string]bool{"arith": true, "requires": true, "assumes": true, "allocates": true, "ensures": true, "assigns": true, "pure": true, "inline": true,
 	"trusted": true, "loop": true, "invariant": true, "decreases": true, "unroll": true, "assert": true, "check": true, "assume": true, "replay": true,
-	"nosafety": true, "abstract": true, "using": true, "let": true, "opaque": true, "keeps": true, "dead": true, "trusts": true, "ignores": true}
+	"nosafety": true, "abstract": true, "using": true, "let": true, "opaque": true, "keeps": true, "dead": true, "trusts": true, "ignores": true, "every": true}
 var topKeywords = map[string]bool{"func": true, "spec": true, "macro": true, "lemma": true, "axiom": true, "ghost": true, "const": true, "global": true, "evalconst": true, "onalloc": true, "pkgframe": true}
 
 // collect //@ lines of a file, joined into logical clauses.
@@ -470,6 +471,12 @@ func (db *ContractDB) loadFile(pkg *packages.Package, f *ast.File, fname string)
 			case "requires":
 				lb, ex := splitLabel(rest)
 				cur.Requires = append(cur.Requires, &Clause{Label: lb, E: db.mustExpr(ex, where)})
+			case "every":
+				if strings.TrimSpace(rest) == "loop iterates" {
+					cur.EveryLoopIterates = true
+				} else {
+					db.errf("%s: expected `every loop iterates`", where)
+				}
 			case "ignores":
 				for _, it := range splitTop(rest, ',') {
 					if cur.Ignores == nil {
